@@ -90,7 +90,7 @@ CLAIMED["C07"] = dict(
 CLAIMED["C08"] = dict(
     technique="Coq proof (restore = filter of printable entries, synced invariant, exact restart theorem) + kernel-checked refutation witness + real-server save/stop/start histories",
     text="C08_restore_filter (reading the written user dictionary back yields exactly its printable entries, nothing else), C08_idempotent, C08_synced_invariant, C08_restart_exact (standard map, key set, counts with time stamps and user "
-         "dictionary reproduced exactly, hence every answer in the same order), C08_produced_entries_printable; refuted in full generality by a guessed entry with an empty stem (F16, known finding).",
+         "dictionary reproduced exactly, hence every answer in the same order), C08_produced_entries_printable; refuted in full generality by a guessed entry with an empty stem (F16) and by a reading outside the format's reading class (F20), both known findings.",
     note="partial: the binary half of the saved state rests on postcard's round trip (observed, not proved). " + SRV_NOTE, ref="6/C08")
 CLAIMED["C20"] = dict(
     technique="Coq proof (extractor shapes; end-to-end through C07/C08) + real session protocol on the real server",
